@@ -37,6 +37,8 @@ func init() {
 			}
 			out = append(out, Instance{Scenario: "pipe", Params: mustJSON(PipeParams{Mode: "script", Layout: "multi", Depth: d, Ops: append(ops[:5:5], "tick"), Auto: true, CrashEnd: true}), Bound: 0, Shards: 4})
 			out = append(out, Instance{Scenario: "pipe", Params: mustJSON(PipeParams{Mode: "script", Layout: "backtoback", Depth: d - 1, Ops: ops, Backend: "file", CrashEnd: true}), Bound: 0, Shards: 4})
+			out = append(out, Instance{Scenario: "pipe", Params: mustJSON(PipeParams{Mode: "script", Layout: "multi", Depth: d, Ops: []string{"deliver0", "deliver1", "ackold", "acknew", "commit"}, Latest: true, CrashEnd: true}), Bound: 0, Shards: 4, Note: "autoReset=latest: a vBucket without a document in a group that has checkpoints restarts from the beginning, not from the current end"})
+			out = append(out, Instance{Scenario: "pipe", Params: mustJSON(PipeParams{Mode: "script", Layout: "multi", Depth: d, Ops: []string{"deliver0", "deliver1", "ackold", "ctxcommit", "commit"}, CrashEnd: true}), Bound: 0, Shards: 4, Note: "Commit() called through the context of an event that is not acknowledged"})
 			out = append(out, Instance{Scenario: "pipe_tornfile", Params: mustJSON(struct{}{}), Bound: 0, Note: "crash inside os.WriteFile of the file backend: every prefix class of the JSON file"})
 			return out
 		},
@@ -59,10 +61,11 @@ func init() {
 				{Scenario: "pipe", Params: mustJSON(PipeParams{Mode: "gen", Alphabet: docs, Depth: d, Ops: ops}), Bound: 0, Shards: 8},
 				{Scenario: "pipe", Params: mustJSON(PipeParams{Mode: "gen", Alphabet: skip, Depth: d + 1, Ops: ops, SkipUntil: true}), Bound: 0, Shards: 8},
 				{Scenario: "pipe", Params: mustJSON(PipeParams{Mode: "gen", Alphabet: coll, Depth: d + 1, Ops: ops, Colls: true}), Bound: 0, Shards: 8},
-				{Scenario: "pipe", Params: mustJSON(PipeParams{Mode: "gen", Alphabet: coll, Depth: d, Ops: ops, Colls: false}), Bound: 0, Shards: 4},
+				{Scenario: "pipe", Params: mustJSON(PipeParams{Mode: "gen", Alphabet: append(append([]string{}, coll...), "Minfix", "Dinfix", "Mres"), Depth: d, Ops: ops, Colls: false}), Bound: 0, Shards: 4},
 				{Scenario: "c08_rollback", Params: mustJSON(RollbackParams{}), Bound: 0, Shards: 4, Note: "the documented rollback filter: nothing at or below the position already reached, everything above it"},
 				{Scenario: "c03_conc", Params: mustJSON(ConcParams{}), Bound: 2, Shards: 8, Note: "three vBuckets on two nodes streaming concurrently, all schedules within the bound"},
 				{Scenario: "c03_conc", Params: mustJSON(ConcParams{Block: true}), Bound: 1, Shards: 4, Note: "consumer blocked inside a delivery of vb0 while the other node keeps delivering"},
+				{Scenario: "c03_rebalance", Params: mustJSON(struct{}{}), Bound: 0, Shards: 4, Note: "completeness across a real Rebalance(): backlog arriving before it, while closed, or right after the vBucket re-opened while Open() still waits for another vBucket"},
 				{Scenario: "reopen_life", Params: mustJSON(LifeParams{Oracle: "delivery", Segs: 2}), Bound: 0, Shards: 8, Note: "chains of transient ends and re-opens (same history / fail-over without rollback / rollback), every acknowledgement pattern between them"},
 			}
 		},
